@@ -5,16 +5,17 @@ package main
 //   memmongo -> OperationDoc -> model.Operation -> operation,   and the echo service.
 
 import (
-	"encoding/json"
 	"context"
+	"encoding/json"
 	"fmt"
+	"math"
 
+	ocontext "github.com/orda-io/orda/client/pkg/context"
 	"github.com/orda-io/orda/client/pkg/iface"
 	"github.com/orda-io/orda/client/pkg/model"
 	"github.com/orda-io/orda/client/pkg/orda"
-	ocontext "github.com/orda-io/orda/client/pkg/context"
-	"github.com/orda-io/orda/server/schema"
 	"github.com/orda-io/orda/server/constants"
+	"github.com/orda-io/orda/server/schema"
 	"google.golang.org/protobuf/proto"
 )
 
@@ -33,6 +34,7 @@ func shapes() []struct {
 } {
 	i8, u64, f32, str, b := int8(-128), uint64(18446744073709551615), float32(1.5), "p", true
 	var nilSlice []interface{}
+	umax := uint(math.MaxUint64)
 	return []struct {
 		name string
 		v    interface{}
@@ -50,7 +52,20 @@ func shapes() []struct {
 		{"map-int", map[string]int{"a": 1, "b": 2}}, {"map-any", map[string]interface{}{"x": []interface{}{1, "y", map[string]interface{}{"z": true}}}},
 		{"slice-int", []int{1, 2, 3}}, {"slice-empty", []interface{}{}}, {"slice-nil", nilSlice},
 		{"array", [2]string{"u", "v"}}, {"map-empty", map[string]interface{}{}},
+		// integer boundaries of every width (what a conversion through a narrower or signed type would change)
+		{"uint-max", uint(math.MaxUint64)}, {"uint-2^63", uint(1) << 63}, {"uint-above", uint(1)<<63 + 12345},
+		{"puint-max", &umax}, {"slice-uint", []uint{1, uint(math.MaxUint64), uint(1) << 63}},
+		{"map-uint", map[string]uint{"m": uint(math.MaxUint64)}}, {"struct-uint", counts{N: uint(math.MaxUint64), M: []uint{uint(1) << 63}}},
+		{"int-min", int(math.MinInt64)}, {"int-max", int(math.MaxInt64)}, {"int64-min", int64(math.MinInt64)},
+		{"uint64-2^63", uint64(1) << 63}, {"uint32-max-in-slice", []uint32{math.MaxUint32, 0}}, {"int16-min", int16(math.MinInt16)},
+		{"float32-max", float32(math.MaxFloat32)}, {"float32-tenth", float32(0.1)}, {"slice-float32", []float32{0.1, math.MaxFloat32}}, {"float64-max", math.MaxFloat64}, {"float64-tiny", math.SmallestNonzeroFloat64},
+		{"float64-2^53+1", float64(1<<53) + 2}, {"negzero", math.Copysign(0, -1)},
 	}
+}
+
+type counts struct {
+	N uint
+	M []uint
 }
 
 func opEq(a, b interface{}) bool { return canonS(a) == canonS(b) }
